@@ -35,7 +35,7 @@ from src.core.base import BaseLintContext, BaseLintRule
 from src.core.constants import HEADER_SCAN_LINES, Language
 from src.core.linter_utils import load_linter_config, path_in_project
 from src.core.types import Violation
-from src.linter_config.directive_markers import has_ignore_directive_marker
+from src.linter_config.directive_markers import has_ignore_directive_marker, source_lines
 from src.linter_config.ignore import _check_specific_rule_ignore, get_ignore_parser
 
 from .atemporal_detector import AtemporalDetector
@@ -171,7 +171,7 @@ class FileHeaderRule(BaseLintRule):  # thailint: ignore[srp]
 
     def _has_standard_ignore(self, file_content: str) -> bool:
         """Check standard ignore parser for file-level ignores."""
-        first_lines = file_content.splitlines()[:HEADER_SCAN_LINES]
+        first_lines = source_lines(file_content)[:HEADER_SCAN_LINES]
         return any(self._line_has_matching_ignore(line) for line in first_lines)
 
     def _line_has_matching_ignore(self, line: str) -> bool:
@@ -182,7 +182,7 @@ class FileHeaderRule(BaseLintRule):  # thailint: ignore[srp]
 
     def _has_custom_ignore_syntax(self, file_content: str) -> bool:
         """Check custom file-level ignore syntax."""
-        first_lines = file_content.splitlines()[:HEADER_SCAN_LINES]
+        first_lines = source_lines(file_content)[:HEADER_SCAN_LINES]
         return any(self._is_ignore_line(line) for line in first_lines)
 
     def _is_ignore_line(self, line: str) -> bool:
@@ -295,7 +295,7 @@ class FileHeaderRule(BaseLintRule):  # thailint: ignore[srp]
     ) -> list[Violation]:
         """Filter out violations that should be ignored."""
         file_content = context.file_content or ""
-        lines = file_content.splitlines()
+        lines = source_lines(file_content)
 
         non_ignored = (
             v
